@@ -19,6 +19,13 @@ Decided (necessary conditions):
       on either side accounted for — and the Postgres and SQLite implementations agree.  The kind of the bound is derived
       from the expression that produces it (followed through parameters to the call sites); a producer that cannot be
       classified is exit 2, never a guess.
+  R7  the journal moves only on the path on which a task is delivered: from every `journal.advance()` (replay cursor) and
+      `journal.record()` in wait_for_next_task, follow the CFG *including* the exception / cancellation edges that are
+      caught by a handler inside the function (the step's own failure edge excepted); nothing that is reachable only through
+      such a caught failure may be a return without a completed task or another journal step.  A replayed wait that times
+      out returns completed=None and is called again: the expected entry must still be the expected one.  (R2 decides
+      pairing over normal edges only; the timeout of the replay wait is an exception edge into a handler.)  Paths that
+      leave by raising are not decided (the execution is aborted).
 
 Not decided: DBOS's own replay guarantees, cross-process delivery, equality of values after replay, and the fact (observation)
 that the *timeout* outcome of wait_for_next_task is not journalled.
@@ -61,11 +68,17 @@ EXPLANATION = (
     "operation — trusted), `x ± int` shifts, locals are expanded, a parameter is followed to all call sites of its method (they must agree), anything else is exit 2. "
     "Obligation per implementation and call site: caller offset + f = 1 for last-used, 0 for first-free; plus one sibling-agreement obligation per method. "
     "One too low purges the recorded output of the last completed operation (re-executed on the next recovery); one too high keeps a stale row of a crashed recovery. "
+    "R7: in wait_for_next_task, for each journal step j (`<journal>.advance()` / `<journal>.record(…)`, the journal being the local bound from the journal factory): N = CFG nodes reachable from j "
+    "over normal edges, A = nodes reachable over all edges including exc / cancel (which lead into the handlers of enclosing try statements, or out of the function), j's own failure edges excluded "
+    "(a step that raises is taken not to have moved the cursor; R4 shows advance is one increment). Nothing in A \\ N — reachable only because a later statement failed and the function caught it — may be "
+    "a return that delivers no task (`return`, `return None`, result record with completed=None) or another journal step. Necessary: the control loop calls again after completed=None and must then be "
+    "given the same expected key; a consumed but undelivered entry shifts every later replayed completion by one and the skipped task is journalled again by the fresh branch. "
+    "Exits by raising are not offenders. A planted fixture (three faulty, four correct shapes) is analysed by the same predicate on every run. "
     "Not decided: DBOS replay guarantees, value equality after replay, the un-journalled timeout outcome."
 )
 TRUSTED = ["CPython ast", "DBOS step memoisation and workflow recovery", "asyncio task scheduling given the journalled order",
            "DBOSContext.function_id is the id of the last durable operation started (incremented before use)", "SQL integer comparison semantics"]
-LEVEL_TEXT = "static necessary-condition rules (effect lint over a resolved call graph, CFG pairing, finite interpretation of the journal arithmetic, producer/consumer bound agreement of range deletes)"
+LEVEL_TEXT = "static necessary-condition rules (effect lint over a resolved call graph, CFG pairing, finite interpretation of the journal arithmetic, producer/consumer bound agreement of range deletes, CFG must-not-reach through caught-failure edges)"
 LEVEL_NOTE = "A pass means no un-memoised nondeterminism source and a well-formed journal protocol; it does not prove that a recovered run reaches the same result (DBOS semantics are trusted)."
 TECHNIQUE = "ast call graph with stated resolution classes + CFG must-pass + AST interpretation over a finite domain"
 
@@ -725,6 +738,203 @@ def _same_task(cfg: CFG, fn: ast.AST, r: ast.Return, first: ast.AST, rec, adv, n
     return False, "both record and advance can precede this return"
 
 
+# ======================================================================================= R7: the cursor moves only on delivery
+
+
+def _journal_locals(fn: ast.AST) -> set[str]:
+    """Locals of `fn` bound to the task journal (the result of a call whose name mentions the journal)."""
+    out: set[str] = set()
+    for s in walk_shallow(fn):
+        if isinstance(s, ast.Assign) and all(isinstance(t, ast.Name) for t in s.targets):
+            v = strip_await(s.value)
+            if isinstance(v, ast.Call) and "journal" in (call_name(v) or "").lower():
+                out |= {t.id for t in s.targets}
+    return out
+
+
+def _journal_calls(fn: ast.AST, jnames: set[str], name: str) -> list[ast.Call]:
+    return [c for c in ast.walk(fn) if isinstance(c, ast.Call) and isinstance(c.func, ast.Attribute) and c.func.attr == name
+            and isinstance(c.func.value, ast.Name) and c.func.value.id in jnames]
+
+
+def _delivers_nothing(r: ast.Return) -> bool:
+    """`return`, `return None`, or a result record whose completed task (first argument / `completed=`) is the constant None."""
+    v = r.value
+    if v is None or (isinstance(v, ast.Constant) and v.value is None):
+        return True
+    if isinstance(v, ast.Call):
+        first = v.args[0] if v.args else kwarg(v, "completed")
+        return isinstance(first, ast.Constant) and first.value is None
+    return False
+
+
+def _record_construction_only(repo, m, stmt: ast.AST) -> bool:
+    """The statement evaluates nothing but locals, constants and the construction of plain repo records (dataclass /
+    NamedTuple-like classes that define no __init__ / __new__ / __post_init__, their repo bases included): it has no
+    failure a handler of the function is there for, so its exception edge is not a caught-failure path."""
+    v = stmt.value if isinstance(stmt, (ast.Return, ast.Assign, ast.AnnAssign, ast.Expr)) else None
+    if v is None:
+        return False
+    for n in ast.walk(v):
+        if isinstance(n, (ast.Name, ast.Constant, ast.Tuple, ast.List, ast.keyword, ast.expr_context)):
+            continue
+        if isinstance(n, ast.Call) and isinstance(n.func, ast.Name):
+            ref = repo.resolve_dotted(m, n.func.id)
+            if ":" in ref and repo._has_cls(ref):
+                refs = [ref] + [b for b in repo.mro_names(ref) if ":" in b and repo._has_cls(b)]
+                if not any(method(repo.cls(r)[1], nm) is not None for r in refs for nm in ("__init__", "__new__", "__post_init__")):
+                    continue
+        return False
+    return True
+
+
+def cursor_escapes(cfg: CFG, fn: ast.AST, jnames: set[str], infallible=None) -> list[tuple[ast.Call, str, ast.AST, list]]:
+    """Journal steps (`advance` = replay cursor, `record` = fresh row + cursor) of `fn` after which the function can still
+    leave *normally* without delivering a task, or reach a second journal step, on a path that runs through a failure
+    handled inside the function (timeout / cancellation / any exception caught by an `except` of `fn`).
+
+    For each step node j:  N = nodes reachable from j over normal edges;  A = nodes reachable from j over all edges incl.
+    `exc` / `cancel` (those lead to the handlers of the enclosing `try`s or out of the function), except j's own failure
+    edges (a step that raises is taken not to have moved the cursor; R4 shows `advance` is a single increment).
+    A \\ N holds exactly what becomes reachable only because a later statement failed and the failure was caught here.
+    `infallible(stmt)` may name statements whose failure edges are not followed (plain record construction from locals).
+    Offenders: a return in A \\ N that delivers nothing, or another journal step in A \\ N.  Paths that leave by raising are
+    not offenders (the execution is aborted; the cursor is in-memory state of that execution).
+    Returns (step call, 'empty-return' | 'second-step', offending AST node, CFG path step → offender)."""
+    X = ("exc", "cancel")
+    steps = [c for nm in ("advance", "record") for c in _journal_calls(fn, jnames, nm)]
+    step_nodes = {id(n): c for c in steps for n in cfg.nodes_of(enclosing_stmt(c))}
+    rets = [r for r in walk_shallow(fn) if isinstance(r, ast.Return)]
+    out = []
+    quiet = [(n, lab) for n in cfg.nodes if infallible is not None and n.kind == "stmt" and n.ast is not None and infallible(n.ast) for lab in X]
+    for c in steps:
+        for jn in cfg.nodes_of(enclosing_stmt(c)):
+            normal = cfg.reach([jn], include_starts=False, labels_excluded=X)
+            every = cfg.reach([jn], include_starts=False, blocked_edges=[(jn, "exc"), (jn, "cancel")] + quiet)
+            caught_only = every - normal
+
+            def route(target) -> list:
+                for lab, t in cfg.succ[jn]:
+                    if lab in X:
+                        continue
+                    p = cfg.path(t, target)
+                    if p:
+                        return [jn] + p
+                return []
+
+            for r in rets:
+                if _delivers_nothing(r):
+                    for rn in cfg.nodes_of(r):
+                        if rn in caught_only:
+                            out.append((c, "empty-return", r, route(rn)))
+                            break
+            for n in caught_only:
+                c2 = step_nodes.get(id(n))
+                if c2 is not None and n is not jn:
+                    out.append((c, "second-step", c2, route(n)))
+    return out
+
+
+def _describe_escape(cfg: CFG, step: ast.Call, kind: str, node: ast.AST, route: list) -> tuple[str, list[str]]:
+    failing = handler = None
+    for a, b in zip(route, route[1:]):
+        if b.kind == "handler":
+            failing, handler = a, b
+            break
+    f_txt = " ".join(ast.unparse(_header_exprs_of(failing)).split())[:70] if failing is not None and failing.ast is not None else "a later statement"
+    h_txt = ("except " + ast.unparse(handler.ast.type) if handler is not None and handler.ast.type is not None else "a bare except") if handler is not None else "a handler of this function"
+    s_txt = ast.unparse(step)
+    if kind == "empty-return":
+        tail = (f"returns without a completed task (`{' '.join(ast.unparse(node).split())[:60]}`): the journal entry is consumed although its task was not delivered — the next call waits "
+                "for the following recorded key, the skipped task is later picked up by the fresh-execution branch and journalled a second time, and the recovered loop sees a completion "
+                "order different from the recorded one")
+    else:
+        tail = f"continues to a second journal step (`{ast.unparse(node)[:50]}`): one completion moves the journal twice"
+    why = (f"`{s_txt}` runs before `{f_txt}`; when that fails into `{h_txt}` the function {tail}. "
+           "Move the cursor only on the path on which the wait for the expected task has succeeded (after the try, or in its else)")
+    return why, [f"{n.kind}@{n.line}{n.tag}" + (f" `{' '.join(ast.unparse(_header_exprs_of(n)).split())[:60]}`" if n.ast is not None and n.kind != "handler" else "") for n in route]
+
+
+def _header_exprs_of(n) -> ast.AST:
+    a = n.ast
+    if isinstance(a, (ast.If, ast.While)):
+        return a.test
+    if isinstance(a, (ast.For, ast.AsyncFor)):
+        return a.iter
+    if isinstance(a, (ast.With, ast.AsyncWith)):
+        return a.items[0].context_expr
+    return a
+
+
+FIXTURE_R7 = "fixtures/c27/cursor_before_wait.py"
+
+
+def _fixture_r7(chk) -> None:
+    """Planted shapes, analysed on every run by the same predicate: three faulty ones must be found, the correct ones must be silent."""
+    from ..index import _set_parents
+    from ..report import VERIF
+
+    p = VERIF / FIXTURE_R7
+    if not p.is_file():
+        raise AnchorError(f"fixture {FIXTURE_R7} missing")
+    tree = ast.parse(p.read_text())
+    _set_parents(tree)
+    want = {"planted_advance_before_wait": "empty-return", "planted_timeout_falls_through_to_record": "second-step", "planted_cancellation_caught_after_advance": "empty-return"}
+    got = n_correct = 0
+    planted = [c for c in tree.body if isinstance(c, ast.ClassDef) and c.name == "Planted"]
+    if not planted:
+        raise AnchorError("C27.R7 fixture: class Planted missing")
+    for f in planted[0].body:
+        if not isinstance(f, FuncNode):
+            continue
+        n_correct += f.name not in want
+        jn = _journal_locals(f)
+        if not jn:
+            raise AnchorError(f"C27.R7 fixture: `{f.name}` binds no journal local")
+        kinds = {k for _c, k, _n, _r in cursor_escapes(CFG(f), f, jn)}
+        if f.name in want:
+            got += want[f.name] in kinds
+        elif kinds:
+            raise AnchorError(f"C27.R7 fixture: the correct shape `{f.name}` was reported ({sorted(kinds)})")
+    chk.floor("C27.R7", f"planted cursor-before-wait shapes recognised ({sorted(want)})", got, len(want))
+    chk.floor("C27.R7", "planted correct shapes analysed and found silent (advance after the try / in its else / last in the try body / later failure propagates)", n_correct, 4)
+
+
+def rule_r7(chk) -> None:
+    """The replay cursor (and the fresh record) may move only on the path on which a task is delivered: every way out of
+    wait_for_next_task after a journal step — including the ways that open when a later wait times out, is cancelled or
+    raises and the function handles that itself — must hand the loop a completed task, and must not step the journal again.
+    R2 decides this over normal control flow only (its pairing obligations exclude exception edges, because most
+    statements `may raise` and those edges leave the function); R7 adds exactly the exception edges that are *caught in
+    the function*, which is where a timeout of the replay wait lives."""
+    repo = chk.repo
+    m, ad = repo.cls(f"{RT}:InternalDBOSAdapter")
+    fn = need_method(m, ad, "wait_for_next_task")
+    cfg = CFG(fn)
+    jnames = _journal_locals(fn)
+    if not jnames:
+        raise AnchorError("C27.R7: wait_for_next_task does not bind the task journal to a local")
+    adv, rec = _journal_calls(fn, jnames, "advance"), _journal_calls(fn, jnames, "record")
+    # floor: at least one journal step must be bound (on /repo: 1 advance + 1 record, read at the replay and the fresh return).  Not 2: when a
+    # step is *missing* that is R2's violation (`completed-return` not preceded by a journal step), which an exit 2 here would mask.
+    chk.floor("C27.R7", "journal steps (advance + record) in wait_for_next_task whose onward paths are followed (/repo: 2)", len(adv) + len(rec), 1)
+    handlers = [n for n in cfg.nodes if n.kind == "handler" and not n.tag]
+    chk.extra["cursor_paths"] = {"advance_sites": len(adv), "record_sites": len(rec), "handlers_in_function": len(handlers),
+                                 "nodes_reachable_only_through_a_caught_failure": sorted({x.line for c in adv + rec for jn in cfg.nodes_of(enclosing_stmt(c))
+                                                                                           for x in (cfg.reach([jn], include_starts=False, blocked_edges=[(jn, "exc"), (jn, "cancel")])
+                                                                                                     - cfg.reach([jn], include_starts=False, labels_excluded=("exc", "cancel"))) if x.ast is not None})}
+    esc = cursor_escapes(cfg, fn, jnames, infallible=lambda st: _record_construction_only(repo, m, st))
+    for c in adv + rec:
+        kind = "advance:replay" if c in adv else "record:fresh"
+        mine = [(k, n, r) for c0, k, n, r in esc if c0 is c]
+        why, path = ("", None)
+        if mine:
+            why, path = _describe_escape(cfg, c, *mine[0])
+        chk.ob("C27.R7", f"after `{ast.unparse(c)}` the function leaves normally only by delivering a task — also when a later wait times out / is cancelled / raises and the failure is handled here "
+               "(the journal moves only on the path on which the expected task is delivered)", not mine, m=m, node=c, fn=fn, instance=f"cursor-only-on-delivery:{kind}", reason=why, path=path)
+    _fixture_r7(chk)
+
+
 # ======================================================================================= R3: register
 
 
@@ -1181,6 +1391,7 @@ def run(chk) -> None:
     rule_r4(chk)
     rule_r5(chk)
     rule_r6(chk)
+    rule_r7(chk)
     chk.observe("C27: the journal's alphabet covers completed tasks only; the timeout outcome of wait_for_next_task (completed=None, after which the runner pops due timer "
                 "ticks) is not journalled, so a recovery in which a memoised step finishes before a timer that originally fired first could order ticks differently. "
                 "Not reproducible here (DBOS is not installed); observation only, not part of the verdict.")
@@ -1220,6 +1431,11 @@ _SL_TR_HOISTED = ("        query = f\"DELETE FROM {self._table_ref} WHERE run_id
 _TJ_LOAD = "        if self._crud is None:\n            self._entries = []\n            return\n\n        self._entries = await self._crud.load(self._run_id)\n"
 _TJ_LOAD_ALIAS = "        crud = self._crud\n        if crud is not None:\n            self._entries = await crud.load(self._run_id)\n        else:\n            self._entries = []\n"
 _TJ_INSERT = "        if self._crud is not None:\n            await self._crud.insert(self._run_id, seq_num, key)\n"
+
+_RW_TRY = ("                try:\n                    await asyncio.wait_for(asyncio.shield(target_task), timeout=timeout)\n"
+           "                except (asyncio.TimeoutError, TimeoutError):\n                    return WaitForNextTaskResult(None, started)\n")
+_RW_ADV = "                journal.advance()\n"
+_RW_RET = "                return WaitForNextTaskResult(target_task, started)\n"
 
 TWINS = [
     # ---- R6 (range deletes start exactly one past the last consumed row; producer kind ↔ comparison; sibling agreement)
@@ -1286,6 +1502,22 @@ TWINS = [
     Twin("R2 benign: record with inline key", _RT, "        key = get_key(all_named, completed)\n        await journal.record(key)\n", "        await journal.record(get_key(all_named, completed))\n", None),
     Twin("R2 benign: advance in try/else", _RT, "                except (asyncio.TimeoutError, TimeoutError):\n                    return WaitForNextTaskResult(None, started)\n                journal.advance()\n                return WaitForNextTaskResult(target_task, started)\n",
          "                except (asyncio.TimeoutError, TimeoutError):\n                    return WaitForNextTaskResult(None, started)\n                else:\n                    journal.advance()\n                    return WaitForNextTaskResult(target_task, started)\n", None),
+    # ---- R7 (the journal moves only on the path that delivers the task; caught-failure edges followed)
+    Twin("R7 replay cursor advanced before the wait on the expected task (seed form)", _RT, _RW_TRY + _RW_ADV, _RW_ADV + _RW_TRY, "C27.R7"),
+    Twin("R7 cursor advanced as the first statement of the try body, before the wait", _RT, _RW_TRY + _RW_ADV,
+         _RW_TRY.replace("                try:\n", "                try:\n                    journal.advance()\n"), "C27.R7"),
+    Twin("R7 cursor advanced before the wait, a zero timeout is swallowed: falls through to the fresh record (advance + record for one completion)", _RT, _RW_TRY + _RW_ADV + _RW_RET,
+         _RW_ADV + _RW_TRY.replace("                    return WaitForNextTaskResult(None, started)\n", "                    if timeout:\n                        return WaitForNextTaskResult(None, started)\n                else:\n    " + _RW_RET), "C27.R7"),
+    Twin("R7 cursor advanced after the wait but a further await follows inside the try (cancellation handled by returning nothing)", _RT, _RW_TRY + _RW_ADV,
+         _RW_TRY.replace("timeout=timeout)\n", "timeout=timeout)\n                    journal.advance()\n                    await asyncio.sleep(0)\n")
+         .replace("except (asyncio.TimeoutError, TimeoutError):", "except (asyncio.TimeoutError, TimeoutError, asyncio.CancelledError):"), "C27.R7"),
+    Twin("R7 benign: cursor step is the last statement of the try body, after the wait", _RT, _RW_TRY + _RW_ADV,
+         _RW_TRY.replace("timeout=timeout)\n", "timeout=timeout)\n                    journal.advance()\n"), None),
+    Twin("R7 benign: wait, cursor step and delivery all inside the try (the result record is built from locals)", _RT, _RW_TRY + _RW_ADV + _RW_RET,
+         _RW_TRY.replace("timeout=timeout)\n", "timeout=timeout)\n                    journal.advance()\n    " + _RW_RET), None),
+    Twin("R7 benign: timeout handler sets a flag, empty return after the try, cursor step on the other branch", _RT, _RW_TRY + _RW_ADV,
+         "                timed_out = False\n" + _RW_TRY.replace("                    return WaitForNextTaskResult(None, started)\n", "                    timed_out = True\n")
+         + "                if timed_out:\n                    return WaitForNextTaskResult(None, started)\n" + _RW_ADV, None),
     # ---- R3
     Twin("R3 only retryable steps wrapped", _RT, "            for step_name, step in as_step_worker_functions(workflow).items()\n        }", "            for step_name, step in as_step_worker_functions(workflow).items()\n            if not step_name.startswith(\"_\")\n        }", "C27.R3"),
     Twin("R3 registration name depends on the object identity", _RT, "        @DBOS.workflow(name=f\"{name}.control_loop\")", "        @DBOS.workflow(name=f\"{name}.{id(workflow)}.control_loop\")", "C27.R3"),
